@@ -52,6 +52,9 @@ def ops_for(cls, unit=1.0):
     bad = dict(Polygon="area", ConvexPolygon="perimeter", ConvexSpheropolygon="radius", Polyhedron="volume",
                ConvexPolyhedron="surface_area", ConvexSpheropolyhedron="radius")[cls]
     ops.append(("bad:" + bad, lambda o, p=bad: setattr(o, p, -1.0)))
+    # a malformed centre (two numbers instead of three): refused, and the shape stays where it was
+    if cls in ("Polygon", "ConvexPolygon", "ConvexSpheropolygon"):
+        ops.append(("bad:centroid-2-vector", lambda o: setattr(o, "centroid", (0.5 * unit, -1.0 * unit))))
     return ops
 
 
@@ -73,16 +76,16 @@ def base(cls):
     if cls == "Polyhedron/noflag":
         # quadrilateral faces, faces_are_convex left at its default (False): sort_faces / merge_faces are documented to raise ValueError -
         # and must then leave the polyhedron exactly as it was
-        box = np.array([[0, 0, 0], [2, 0, 0], [2, 1.5, 0], [0, 1.5, 0], [0.25, 0, 1], [2.25, 0, 1], [2.25, 1.5, 1], [0.25, 1.5, 1]], float) + np.array([3.0, -2.0, 5.0])
+        box = np.array([[0, 0, 0], [2, 0, 0], [2, 1.5, 0], [0, 1.5, 0], [0.25, 0, 1], [2.25, 0, 1], [2.25, 1.5, 1], [0.25, 1.5, 1]], float) + np.array([3.25, -2.5, 5.125])
         cb = coxeter.shapes.ConvexPolyhedron(box)
         return coxeter.shapes.Polyhedron(np.array(cb.vertices), [np.array(f) for f in cb.faces])
 
     if cls == "Polyhedron":
         # triangulated faces so that merge_faces has something to do, convex faces allowed
-        cp = coxeter.shapes.ConvexPolyhedron(Z.chiral_solid() * np.array([1.0, 1.0, 1.0]) + np.array([3.0, -2.0, 5.0]))
+        cp = coxeter.shapes.ConvexPolyhedron(Z.chiral_solid() * np.array([1.0, 1.0, 1.0]) + np.array([3.25, -2.5, 5.125]))
         V = np.array(cp.vertices)
         # a prism-like solid with coplanar triangles: use a box with a chiral skew instead
-        box = np.array([[0, 0, 0], [2, 0, 0], [2, 1.5, 0], [0, 1.5, 0], [0.25, 0, 1], [2.25, 0, 1], [2.25, 1.5, 1], [0.25, 1.5, 1]], float) + np.array([3.0, -2.0, 5.0])
+        box = np.array([[0, 0, 0], [2, 0, 0], [2, 1.5, 0], [0, 1.5, 0], [0.25, 0, 1], [2.25, 0, 1], [2.25, 1.5, 1], [0.25, 1.5, 1]], float) + np.array([3.25, -2.5, 5.125])
         cb = coxeter.shapes.ConvexPolyhedron(box)
         tris = []
         for f in cb.faces:
